@@ -30,6 +30,8 @@ class C16(Prop):
     deadline = 20.0
 
     def cases(self, rng, tier):
+        for c in self.gap_cases(rng, tier):
+            yield c
         N = 300 if tier == "quick" else 6000
         for i in range(N):
             rule = ["KARV", "TSF", "DIST"][i % 3]
@@ -66,6 +68,24 @@ class C16(Prop):
                 V = [[float(1 if r <= 2 else 0) for r in row] for row in P]; kind = "approval_int"; ec = "profile_int"
             yield dict(entry={"KARV": "KARV.scf", "TSF": "LambdaTSF.scf"}[rule], family=rule.lower() + "_" + kind, rule=rule, P=P, V=V, k=k,
                        tb=["accept", "first", "random"][i % 3], zi=True, want_out=True, seed=i, eclass=ec, ezi=True)
+
+    def gap_cases(self, rng, tier):
+        # every agent has its own favourite (value 1) and all share a second choice valued just BELOW some threshold level l* and above
+        # the next one: level l* adds nothing for anybody, level l*+1 adds the common alternative, which is the welfare optimum
+        for i in range(20 if tier == "quick" else 400):
+            m = rng.randint(5, 12); k = rng.randint(2, 4); n = m - 1; ls = rng.randint(1, k - 1)
+            common = m - 1
+            val = 0.99 * m ** (-ls / (k + 1))
+            P, V = [], []
+            for a in range(n):
+                rest = [j for j in range(m) if j not in (a, common)]; rng.shuffle(rest)
+                order = [a, common] + rest
+                rk = [0] * m; vv = [0.0] * m
+                for pos, j in enumerate(order):
+                    rk[j] = pos + 1; vv[j] = 1.0 if pos == 0 else val if pos == 1 else 1e-6 * (m - pos)
+                P.append(rk); V.append(vv)
+            yield dict(entry="KARV.scf", family="karv_gap", rule="KARV", P=P, V=V, k=k, tb=["accept", "first", "random"][i % 3], zi=True, want_out=True, seed=i,
+                       eclass="lambda", ezi=True)
 
     def run(self, case):
         if case["rule"] == "DIST":
